@@ -367,6 +367,43 @@ def generate() -> list[str]:
         os.makedirs(os.path.dirname(OUT), exist_ok=True)
         with open(OUT, "w") as f:
             f.write(text)
+    notes += generate_plugins()
+    return notes
+
+
+def generate_plugins() -> list[str]:
+    """Per-model generators: harness/gen/<name>.py exposing
+    `generate(notes: list[str]) -> list[str]` (Lean source lines) and optionally
+    `LEAN_MODULE = "GenFoo"`; each writes lean/WfModel/<LEAN_MODULE>.lean."""
+    import importlib
+    import pkgutil
+
+    notes: list[str] = []
+    gdir = os.path.join(VERIF, "harness", "gen")
+    if not os.path.isdir(gdir):
+        return notes
+    for m in sorted(pkgutil.iter_modules([gdir]), key=lambda m: m.name):
+        if m.name.startswith("_"):
+            continue
+        mod = importlib.import_module(f"harness.gen.{m.name}")
+        name = getattr(mod, "LEAN_MODULE", "Gen" + m.name.title().replace("_", ""))
+        head = [f"/- GENERATED by /verif/harness/gen/{m.name}.py from /repo's current sources.",
+                "   Do not edit; regenerated on every check run. -/",
+                "set_option linter.unusedVariables false", ""]
+        try:
+            body = mod.generate(notes)
+        except Exception as e:  # extractor crash = drift; dependent theorems fail to compile
+            notes.append(f"translate: gen/{m.name} crashed: {e!r}")
+            body = [f"-- extractor crashed: {e!r}".replace("\n", " ")]
+        text = "\n".join(head + body) + "\n"
+        out = os.path.join(VERIF, "lean", "WfModel", name + ".lean")
+        try:
+            old = open(out).read()
+        except OSError:
+            old = None
+        if old != text:
+            with open(out, "w") as f:
+                f.write(text)
     return notes
 
 
